@@ -99,7 +99,12 @@ class CGen:
         self.tmp = 0
 
     def cname(self, t):
-        return "%s_%s_1_0" % (self.ts.ns, t["name"])
+        return "%s_%s%s_1_0" % (self.ts.ns, t["name"], "_" + t["svc"] if t.get("svc") else "")
+
+    @staticmethod
+    def fn(t):
+        """suffix of the fill_/dump_ helper names (unique per serializable type)"""
+        return t["name"] + (t["svc"] if t.get("svc") else "")
 
     def stype(self, t):
         k = t["k"]
@@ -134,7 +139,7 @@ class CGen:
         elif k == "void":
             pass
         elif dsdl.is_comp(t):
-            out.append("%sfill_%s(&%s);" % (p, t["name"], lv))
+            out.append("%sfill_%s(&%s);" % (p, self.fn(t), lv))
         else:
             raise ValueError(k)
 
@@ -168,7 +173,7 @@ class CGen:
             self.fill(f, base + name, out, ind)
 
     def fill_fn(self, t):
-        out = ["static void fill_%s(%s* o) {" % (t["name"], self.cname(t))]
+        out = ["static void fill_%s(%s* o) {" % (self.fn(t), self.cname(t))]
         if t["k"] == "struct":
             for i, f in enumerate(t["fields"]):
                 if f["k"] != "void":
@@ -196,7 +201,7 @@ class CGen:
         elif k == "void":
             out.append('%sprintf("[]");' % p)
         elif dsdl.is_comp(t):
-            out.append("%sdump_%s(&%s);" % (p, t["name"], lv))
+            out.append("%sdump_%s(&%s);" % (p, self.fn(t), lv))
 
     def dump_field(self, f, base, name, out, ind):
         p = "    " * ind
@@ -227,7 +232,7 @@ class CGen:
             self.dump(f, base + name, out, ind)
 
     def dump_fn(self, t):
-        out = ["static void dump_%s(const %s* o) {" % (t["name"], self.cname(t))]
+        out = ["static void dump_%s(const %s* o) {" % (self.fn(t), self.cname(t))]
         if t["k"] == "struct":
             out.append("    (void) o; putchar('[');")
             for i, f in enumerate(t["fields"]):
@@ -253,7 +258,7 @@ class CGen:
 
     def source(self):
         parts = [PRELUDE % {"includes": "\n".join('#include "%s/%s_1_0.h"' % (self.ts.ns, t["name"]) for t in self.ts.all)}]
-        for t in self.ts.all:
+        for t in self.ts.all + [t["partner"] for t in self.ts.all if "partner" in t]:
             parts.append(self.fill_fn(t))
             parts.append(self.dump_fn(t))
         # persistent objects for history cases + dispatchers
@@ -265,12 +270,12 @@ class CGen:
         for i, t in enumerate(tops):
             cn = self.cname(t)
             ser.append("    case %d: { %s* o = (%s*) malloc(sizeof(%s)); memset(o, 0, sizeof(%s)); fill_%s(o); int rc = %s_serialize_(o, buf, size); free(o); return rc; }"
-                       % (i, cn, cn, cn, cn, t["name"], cn))
+                       % (i, cn, cn, cn, cn, self.fn(t), cn))
             des.append("    case %d: { %s* o; if (prior == 2 && keep[%d]) o = (%s*) keep[%d]; else { o = (%s*) malloc(sizeof(%s)); memset(o, prior == 1 ? 0xA5 : 0, sizeof(%s)); }"
                        % (i, cn, i, cn, i, cn, cn, cn))
             des.append("        int rc = %s_deserialize_(o, buf, size);" % cn)
             des.append('        printf("\\"rc\\":%d,\\"err\\":\\"%s\\",\\"consumed\\":%lu,\\"val\\":", rc, kind(rc), (unsigned long) *size);')
-            des.append('        if (rc >= 0) dump_%s(o); else printf("[]");' % t["name"])
+            des.append('        if (rc >= 0) dump_%s(o); else printf("[]");' % self.fn(t))
             des.append("        if (keep[%d] && keep[%d] != o) free(keep[%d]); keep[%d] = o; break; }" % (i, i, i, i))
             meta.append('    case %d: printf("\\"extent\\":%%lu,\\"bufsize\\":%%lu,\\"sizeof\\":%%lu", (unsigned long) %s_EXTENT_BYTES_, (unsigned long) %s_SERIALIZATION_BUFFER_SIZE_BYTES_, (unsigned long) sizeof(%s)); break;'
                         % (i, cn, cn, cn))
